@@ -84,7 +84,10 @@ def check(run):
     models = []
     for k in range(n):
         M = docgen.gen(rng, ntempl=rng.choice([1, 1, 2, 3] + ([4, 5] if thorough else [])), allow_anon=False, branchpoints=False, xta_common=True)
-        faulty = rng.random() < 0.25
+        oldsyn = rng.random() < 0.15
+        if oldsyn:
+            docgen.oldify(M, rng)
+        faulty = rng.random() < 0.25 and not oldsyn
         if faulty:
             # the same semantic or syntactic fault in the same label of both renderings
             sites = [(kind, m) for T in M.templates for e in T['edges'] for kind, m in e['labels']] + [('inv', l['inv']) for T in M.templates for l in T['locs'] if l['inv'] is not None]
@@ -96,8 +99,8 @@ def check(run):
             else:
                 faulty = False
         models.append((M, faulty))
-        j.case('x%d' % k, fork=True).model('xml', docgen.render_xml(M)).dump('errors').dump('doc').dump('supported').dump('inv').end()
-        j.case('t%d' % k, fork=True).model('xta', docgen.render_xta(M)).dump('errors').dump('doc').dump('supported').dump('inv').end()
+        j.case('x%d' % k, fork=True, old=oldsyn).model('xml', docgen.render_xml(M)).dump('errors').dump('doc').dump('supported').dump('inv').end()
+        j.case('t%d' % k, fork=True, old=oldsyn).model('xta', docgen.render_xta(M)).dump('errors').dump('doc').dump('supported').dump('inv').end()
     rr = vlib.run_jobs(j)
     stats = dict(pairs=0, accepted=0, rejected=0, templates=0, locations=0, edges=0, flagged_locations=0)
     samples = []
@@ -148,11 +151,11 @@ def check(run):
             samples.append(dict(xml=xml, xta=xta))
     run.cov.update(evaluations=2 * n, distinct_nontrivial=len(set(docgen.render_xta(M) for M, _ in models)), traces_validated_against_impl=stats['pairs'], grammar_facts=nfacts,
                    rule='seeded random models of the common subset (1-3 templates, up to 5 thorough; value / reference parameters, local declarations, named locations with invariants, urgent / committed flags, '
-                        'self loops, parallel edges, controllable and uncontrollable edges, select / guard / sync / assign / probability sections, instantiations, system lines with priorities), a quarter of them with the same '
+                        'self loops, parallel edges, controllable and uncontrollable edges, select / guard / sync / assign / probability sections, instantiations, system lines with priorities; one in seven in the old 3.x syntax with comma-separated guards and invariants and := updates), a quarter of them with the same '
                         'semantic or syntactic fault in the same label of both renderings; both renderings are parsed and the diagnostics (messages), the document dump, the supported-analysis verdict and the invariant traversal are compared; '
                         'the process-body productions of the regenerated grammar are compared with the structure XtaXml.v models',
                    samples=samples, **stats)
     run.cov['trusted_base'] += ['hand models DocModel.v / XtaXml.v (reader order vs grammar order), tied to parser.y by the production table and to both front ends by the document dumps',
                                 'tools/docgen.py (both renderers)', 'tools/gen_grammar.py (bison --xml + parser.y action reader)']
     return run.finish('proof', assumptions=['positions of diagnostics are compared by C06, not here',
-                                            'the old (3.x) syntax is not generated'])
+                                            'the old (3.x) syntax is generated without parameters and instantiations'])
